@@ -25,7 +25,7 @@ from sim import aioloop as A
 from sim import isolate
 from sim import threads as T
 from sim.adata import Events, make_async_data
-from sim.core import Outcome, digest, exc_key, internal_leak, scrub
+from sim.core import native_text, Outcome, digest, exc_key, internal_leak, scrub
 from sim.envs import AE_MODES, CodeMemo, clear_process_caches
 from sim.tape import Tape
 from sim import workload as W
@@ -108,6 +108,16 @@ class Cfg:
         else:
             def gf(x=0):
                 return W.f1(x) + 1
+        if self.is_async:
+            @jinja2.pass_context
+            async def gcx(ctx, name):
+                return ctx.resolve(name)
+        else:
+            @jinja2.pass_context
+            def gcx(ctx, name):
+                return ctx.resolve(name)
+        e.globals["gcx"] = gcx
+        e.globals["gso"] = W.StrObj("G!")
         e.globals["gf"] = gf
         e.globals["gn"] = 3
         e.globals["gd"] = {"k1": 1, "k2": [2]}
@@ -151,7 +161,7 @@ def _render(env, entry, api, data, tape):
                 r = str(tmpl.make_module(data))
         if not isinstance(r, str):
             # native environments return Python values; a container belongs to the caller, who may change it
-            text = "native:" + type(r).__name__ + ":" + repr(r)
+            text = native_text(r)
             if id(r) in _container_ids([data, dict(env.globals), TG]):
                 pass  # the template returned one of its inputs itself: not the caller's to change here
             elif isinstance(r, list):
